@@ -4,6 +4,7 @@ import (
 	"bytes"
 	"crypto/sha256"
 	"encoding/hex"
+	"errors"
 	"fmt"
 	"os"
 	"path/filepath"
@@ -237,6 +238,16 @@ func (s *c06Store) Discard() {
 	}
 }
 
+// c06PutRefused: op number k of the session (a Put / PutMany) returned an error without having issued a write.
+// The statement speaks of puts that returned; a store that declines a block says nothing about crash safety.
+type c06PutRefused struct {
+	k   int
+	err error
+}
+
+func (e *c06PutRefused) Error() string { return e.err.Error() }
+func (e *c06PutRefused) Unwrap() error { return e.err }
+
 // runSession executes ops on path (resuming when the file is non-empty) under a trace.
 func c06RunSession(front, path string, o drv.Opts, roots []cid.Cid, ops []string) (*c06Sess, error) {
 	f, err := os.OpenFile(path, os.O_RDWR|os.O_CREATE, 0o644)
@@ -260,7 +271,14 @@ func c06RunSession(front, path string, o drv.Opts, roots []cid.Cid, ops []string
 		return se, err
 	}
 	defer s.Discard()
-	for _, op := range ops {
+	for k, op := range ops {
+		nlog := len(tr.Log)
+		refused := func(err error) error {
+			if len(tr.Log) == nlog {
+				return &c06PutRefused{k, err}
+			}
+			return err
+		}
 		if op == "F" {
 			err := s.Finalize()
 			tr.EndCall()
@@ -280,7 +298,7 @@ func c06RunSession(front, path string, o drv.Opts, roots []cid.Cid, ops []string
 					tr.EndCall()
 					se.labels = append(se.labels, "put")
 					if err != nil {
-						return se, fmt.Errorf("%s: %w", op, err)
+						return se, refused(fmt.Errorf("%s: %w", op, err))
 					}
 					se.puts = append(se.puts, c06Put{b, call})
 				}
@@ -292,7 +310,7 @@ func c06RunSession(front, path string, o drv.Opts, roots []cid.Cid, ops []string
 			tr.EndCall()
 			se.labels = append(se.labels, "put")
 			if err != nil {
-				return se, fmt.Errorf("%s: %w", op, err)
+				return se, refused(fmt.Errorf("%s: %w", op, err))
 			}
 			for _, b := range bl {
 				se.puts = append(se.puts, c06Put{b, call})
@@ -305,7 +323,7 @@ func c06RunSession(front, path string, o drv.Opts, roots []cid.Cid, ops []string
 		tr.EndCall()
 		se.labels = append(se.labels, "put")
 		if err != nil {
-			return se, fmt.Errorf("%s: %w", op, err)
+			return se, refused(fmt.Errorf("%s: %w", op, err))
 		}
 		se.puts = append(se.puts, c06Put{b, call})
 	}
@@ -1222,6 +1240,21 @@ func runC06(c any, x *kit.Ctx) {
 	for g := 0; g < n; g++ {
 		var err error
 		se, err = c06RunSession(cs.Front, path, cs.Opts, roots, ops[g])
+		var pr *c06PutRefused
+		if errors.As(err, &pr) && g == n-1 {
+			// a Put declined before any write: the session is the one up to that Put (counted, so that a store
+			// declining everything shows in the evidence)
+			x.Outcome("beyond-statement:put-refused")
+			x.Note("put-refused: "+cs.Front+fmt.Sprintf(" %+v", cs.Opts), fmt.Sprintf("%v | ops=%v", err, ops[g]))
+			ops[g] = ops[g][:pr.k]
+			if err := os.WriteFile(path, se.base, 0o644); err != nil {
+				panic(err)
+			}
+			if len(se.base) == 0 {
+				os.Remove(path)
+			}
+			se, err = c06RunSession(cs.Front, path, cs.Opts, roots, ops[g])
+		}
 		if err != nil {
 			if g == 0 {
 				x.Fail("c06:session-error:"+cs.Front, "generation-1 session %v failed: %v", cs.Gen1, err)
@@ -1299,6 +1332,16 @@ func runC06(c any, x *kit.Ctx) {
 		ts := c06Torn(se.tr.Log[i], cs.Tier, cs.Tier == "thorough" && !cs.Big)
 		if cs.Big {
 			ts = c06TornBig(se.tr.Log[i], cs.Tier)
+			// a write path that hands a large block over in many pieces multiplies the multi-MiB images: beyond
+			// 48 writes only the first 12, the last 12 and the middle 8 writes get the full class, the others
+			// are cut at their boundary and in the middle (counted below; unchanged go-car logs 3 writes per put)
+			if n := len(se.tr.Log); n > 48 && !(i < 12 || i >= n-12 || (i >= n/2-4 && i < n/2+4)) {
+				ts = []int{0}
+				if l := len(se.tr.Log[i].Data); l > 1 {
+					ts = append(ts, l/2)
+				}
+				x.Count("big_case_writes_with_reduced_torn_class", 1)
+			}
 		}
 		for _, t := range ts {
 			checkPoint(i, t)
